@@ -13,6 +13,8 @@ func runFamily(fam string, w *bufio.Writer, r *rng, id, size int, opt string) bo
 		genOpts(w, r, id, size)
 	case "result":
 		genResult(w, r, id, size)
+	case "redef":
+		genRedef(w, r, id)
 	case "call":
 		switch opt {
 		case "", "general":
